@@ -4,6 +4,7 @@
 #   demo passes on the clean tree, fails with the patch; the pinned suite gives the baseline's pass/fail sets;
 #   then runs the property's quick check against the patched tree (VERIF_REPO) and reports whether it is caught.
 set -u
+HERE="$(cd "$(dirname "${BASH_SOURCE[0]}")" && pwd)"
 D=$(realpath "$1"); P=$2; SKIP=${3:-}
 WT=$(mktemp -d /tmp/ev-XXXXXX); rmdir "$WT"
 git -C /repo worktree add --detach "$WT" HEAD >/dev/null 2>&1 || { echo "worktree failed"; exit 2; }
@@ -18,10 +19,10 @@ if [ "$SKIP" != "--skip-suite" ]; then
   echo "== pinned suite with patch"
   timeout 3000 /venv/bin/python -m pytest -ra -q -p no:cacheprovider --timeout=900 --continue-on-collection-errors > "$D/eval_suite.log" 2>&1
   grep -E "^(FAILED|ERROR)" "$D/eval_suite.log" | sed 's/ - .*//' | sort > "$D/eval_suite_failed.txt"
-  if diff -q "$D/eval_suite_failed.txt" /verif/seeded_baseline_failed.txt >/dev/null; then suite="same-as-baseline ($(tail -1 "$D/eval_suite.log"))"; else suite="DIFFERS: $(diff "$D/eval_suite_failed.txt" /verif/seeded_baseline_failed.txt | head -5 | tr '\n' ' ')"; fi
+  if diff -q "$D/eval_suite_failed.txt" $HERE/seeded_baseline_failed.txt >/dev/null; then suite="same-as-baseline ($(tail -1 "$D/eval_suite.log"))"; else suite="DIFFERS: $(diff "$D/eval_suite_failed.txt" $HERE/seeded_baseline_failed.txt | head -5 | tr '\n' ' ')"; fi
 fi
 echo "== $P quick check against patched tree"
-cd /verif
+cd "$HERE"
 VERIF_REPO=$WT VERIF_NO_EVIDENCE=1 VERIF_REPLAY_DIR=$D/replays VERIF_WORK=$WT timeout 1800 bin/check $P quick > "$D/eval_check.log" 2>&1; rc_chk=$?
 echo "RESULT demo_clean_rc=$rc_clean demo_patched_rc=$rc_pat suite=[$suite] check_rc=$rc_chk"
 grep -E "^(VIOLATION|HARNESS-ERROR)" "$D/eval_check.log" | cut -c1-400 | head -3
